@@ -39,6 +39,13 @@ Theorem C07_source_normalize : forall u, src_normalize u true = normalize u.
 Proof. exact src_normalize_eq. Qed.
 Print Assumptions C07_source_normalize.
 
+(* URL.from_parts as it is in the source now, started from cls() (the URL of the empty text) *)
+Theorem C07_source_from_parts : forall s h p q f po us pw,
+  url_of_text [] = Some url0 /\
+  src_from_parts url0 s h p q f po us pw = from_parts s h p q f po us pw.
+Proof. exact src_from_parts_eq. Qed.
+Print Assumptions C07_source_from_parts.
+
 (* URL.navigate as it is in the source now: the body after the str/URL dispatch
    (dest a URL object; orig_is_none = it was passed as one; dest_copy = URL(dest)) is the
    model's  "absolute destination -> normalize it, else navigate_rel" ... *)
